@@ -629,12 +629,17 @@ func aggregate(rs []instResult) *aggT {
 	// cap violations to a manageable number (first per label+harness)
 	seen := map[string]int{}
 	var vs []taggedViolation
+	seenInst := map[string]int{}
 	for _, v := range a.violations {
+		// at most 2 per instance and 8 per label+harness: counterexamples of different
+		// instances differ in kind (e.g. an injected fault vs. a failure the input itself causes)
 		k := v.harness + "/" + v.v.Label
-		if seen[k] < 2 {
+		ki := k + "/" + fmt.Sprint(v.v.Params)
+		if seen[k] < 8 && seenInst[ki] < 2 {
 			vs = append(vs, v)
+			seen[k]++
+			seenInst[ki]++
 		}
-		seen[k]++
 	}
 	a.violations = vs
 	seenK := map[string]int{}
